@@ -96,8 +96,10 @@ func newAllChainAt(run *ev.Run, seed string, journal *rig.Journal, genesisTime t
 	// one transaction in fourteen gets a second message that cannot succeed: its first message runs to the end and the
 	// transaction is rolled back as a whole; whatever survives that outside the stores shows up as replica divergence
 	// (C11), and the stores themselves are compared anyway
-	r.Poison = func() bool { return run.Rng.Intn(14) == 0 }
-	return &allChain{run: run, r: r, ws: ws}
+	c := &allChain{run: run, r: r, ws: ws}
+	// (not during the first blocks: the workloads' one-time set-up transactions - definitions, feeds, liquidity - are not retried)
+	r.Poison = func() bool { return c.n >= 15 && run.Rng.Intn(14) == 0 }
+	return c
 }
 
 // Step delivers one block with txs from every workload.
